@@ -105,6 +105,81 @@ impl Nd for BytesNd {
     }
 }
 
+/// Native witness search: biased random draws, recorded so that a reproducing vector can be replayed. Only used to
+/// concretise a failure that the solver has already established but for which Kani printed no concrete values.
+#[cfg(not(kani))]
+pub struct RandNd {
+    pub state: u64,
+    pub drawn: Vec<Vec<u8>>,
+}
+
+#[cfg(not(kani))]
+impl RandNd {
+    pub fn new(seed: u64) -> Self {
+        RandNd { state: seed.wrapping_mul(0x9E3779B97F4A7C15) | 1, drawn: Vec::new() }
+    }
+    fn next(&mut self) -> u64 {
+        let mut x = self.state;
+        x ^= x << 13;
+        x ^= x >> 7;
+        x ^= x << 17;
+        self.state = x;
+        x
+    }
+    fn int(&mut self) -> i64 {
+        let r = self.next();
+        match r % 10 {
+            0..=5 => ((self.next() % 17) as i64) - 8,
+            6 => [i64::MIN, i64::MAX, i64::MIN + 1, i64::MAX - 1, 0][(self.next() % 5) as usize],
+            7 => ((self.next() % 300) as i64) - 20,
+            _ => self.next() as i64,
+        }
+    }
+}
+
+#[cfg(not(kani))]
+impl Nd for RandNd {
+    fn u8(&mut self) -> u8 {
+        const INTERESTING: [u8; 24] = [
+            0, 1, b'\n', b'\r', b'\t', b' ', b'a', b'z', b'0', b'_', b'(', b'"', 0x7f, 0x80, 0xbf, 0xc3, 0xa9, 0xe2, 0x82, 0xac, 0xf0, 0x9f,
+            0x98, 0xff,
+        ];
+        let r = self.next();
+        let v = match r % 6 {
+            0 => (self.next() & 0xff) as u8,
+            1 | 2 => (self.next() % 9) as u8,
+            _ => INTERESTING[(self.next() % 24) as usize],
+        };
+        self.drawn.push(vec![v]);
+        v
+    }
+    fn u32(&mut self) -> u32 {
+        let v = if self.next() % 8 == 0 { self.next() as u32 } else { (self.next() % 9) as u32 };
+        self.drawn.push(v.to_le_bytes().to_vec());
+        v
+    }
+    fn i64(&mut self) -> i64 {
+        let v = self.int();
+        self.drawn.push(v.to_le_bytes().to_vec());
+        v
+    }
+    fn usize(&mut self) -> usize {
+        let v = if self.next() % 10 == 0 { self.next() as usize } else { (self.next() % 10) as usize };
+        self.drawn.push((v as u64).to_le_bytes().to_vec());
+        v
+    }
+    fn bool(&mut self) -> bool {
+        let v = self.next() % 2 == 0;
+        self.drawn.push(vec![v as u8]);
+        v
+    }
+    fn assume(&mut self, c: bool) {
+        if !c {
+            std::panic::panic_any(AssumptionViolated);
+        }
+    }
+}
+
 /// `vcover!(cond, "name")`: a reachability witness (vacuity guard) under Kani; nothing natively.
 #[cfg(kani)]
 #[macro_export]
@@ -137,11 +212,12 @@ macro_rules! harnesses {
         )*
         $(
             #[cfg(not(kani))]
-            pub fn $name($nd: &mut $crate::nd::BytesNd) $body
+            pub fn $name<__N: $crate::nd::Nd>($nd: &mut __N) $body
         )*
         #[cfg(not(kani))]
-        pub fn registry() -> Vec<(&'static str, fn(&mut $crate::nd::BytesNd))> {
-            vec![ $( (stringify!($name), $name as fn(&mut $crate::nd::BytesNd)) ),* ]
+        pub fn registry() -> Vec<(&'static str, fn(&mut $crate::nd::BytesNd), fn(&mut $crate::nd::RandNd))> {
+            vec![ $( (stringify!($name), $name::<$crate::nd::BytesNd> as fn(&mut $crate::nd::BytesNd),
+                      $name::<$crate::nd::RandNd> as fn(&mut $crate::nd::RandNd)) ),* ]
         }
     };
 }
